@@ -24,7 +24,15 @@ import traceback
 ROOT = os.path.dirname(os.path.dirname(os.path.abspath(__file__)))
 COQ = os.path.join(ROOT, "coq")
 REPO = os.environ.get("VERIF_REPO", "/repo")
-NPROC = int(os.environ.get("VERIF_JOBS", "16"))
+def _default_jobs():
+    try:
+        load = os.getloadavg()[0]
+    except OSError:
+        load = 0
+    return 16 if load < 20 else 6
+
+
+NPROC = int(os.environ.get("VERIF_JOBS", "0")) or _default_jobs()
 
 STD_AXIOMS_OK = (
     # axioms declared by the Coq standard library; permitted when named in the
@@ -386,7 +394,7 @@ class CoqRunError(Exception):
     pass
 
 
-def coq_eval_mismatches(prop_id, imports, triples, shard=250, timeout=900):
+def coq_eval_mismatches(prop_id, imports, triples, shard=250, timeout=2400):
     """triples: list of (index:int, model_term:str, impl_obs_literal:str).
 
     Writes shards under coq/_cases/<prop>/, compiles them in parallel with
@@ -405,8 +413,8 @@ def coq_eval_mismatches(prop_id, imports, triples, shard=250, timeout=900):
             f.write(imports.strip() + "\n")
             f.write("Set Printing Width 100000. Set Printing Depth 1000000.\n")
             f.write("Open Scope list_scope.\n")
-            f.write("Definition the_cases : list (nat * obs * obs) := [\n")
-            f.write(";\n".join(f"  ({i}%nat, ({m}), {o})" for i, m, o in chunk))
+            f.write("Definition the_cases : list (N * obs * obs) := [\n")
+            f.write(";\n".join(f"  ({i}%N, ({m}), {o})" for i, m, o in chunk))
             f.write("\n].\n")
             f.write("Definition the_result := Eval vm_compute in (mismatches the_cases).\n")
             f.write('Definition MARK := "VERIF-RESULT"%string.\nPrint the_result.\n')
@@ -422,11 +430,11 @@ def coq_eval_mismatches(prop_id, imports, triples, shard=250, timeout=900):
         out = open(os.path.join(d, name + ".out")).read()
         if rc != "0":
             raise CoqRunError(f"model evaluation failed in {name} (rc={rc}):\n{out[-3000:]}")
-        m = re.search(r"the_result\s*=\s*(.*?)\s*:\s*list nat", out, re.S)
+        m = re.search(r"the_result\s*=\s*(.*?)\s*:\s*list N", out, re.S)
         if not m:
             raise CoqRunError(f"cannot parse output of {name}:\n{out[-2000:]}")
         body = m.group(1)
-        bad.extend(int(x) for x in re.findall(r"\d+", body))
+        bad.extend(int(x) for x in re.findall(r"\d+", body.replace("%N", " ")))
     return sorted(bad)
 
 
